@@ -385,7 +385,9 @@ fn parse_views(toks: &[&str], i: &mut usize) -> Option<Vec<V>> {
             "t" => out.push(V::Text(unhex_str(arg)?)),
             "e" => {
                 let tag = arg.strip_suffix('[')?.to_string();
-                if !TAGS.contains(&tag.as_str()) {
+                // e<tag>[@<hex title>][ … ]
+                let base = tag.split('@').next().unwrap_or("");
+                if !TAGS.contains(&base) || tag.split('@').nth(1).is_some_and(|h| unhex_str(h).is_none()) {
                     return None;
                 }
                 out.push(V::El(tag, body(i)?))
@@ -430,20 +432,45 @@ fn parse_views(toks: &[&str], i: &mut usize) -> Option<Vec<V>> {
     Some(out)
 }
 
-const TAGS: &[&str] = &["div", "p", "span", "b", "i", "em", "u", "section"];
+const TAGS: &[&str] = &["div", "p", "span", "b", "i", "em", "u", "section", "textarea"];
 
+/// `tag` or `tag@<hex>`: the element with a `title` attribute of that value
 fn el(tag: &str, child: AnyView) -> AnyView {
     use leptos::html::*;
-    match tag {
-        "div" => div().child(child).into_any(),
-        "p" => p().child(child).into_any(),
-        "span" => span().child(child).into_any(),
-        "b" => b().child(child).into_any(),
-        "i" => i().child(child).into_any(),
-        "em" => em().child(child).into_any(),
-        "u" => u().child(child).into_any(),
-        _ => section().child(child).into_any(),
+    let (tag, title) = match tag.split_once('@') {
+        Some((t, h)) => (t, unhex_str(h)),
+        None => (tag, None),
+    };
+    macro_rules! mk {
+        ($f:ident) => {
+            match title {
+                Some(t) => $f().title(t).child(child).into_any(),
+                None => $f().child(child).into_any(),
+            }
+        };
     }
+    match tag {
+        "div" => mk!(div),
+        "p" => mk!(p),
+        "span" => mk!(span),
+        "b" => mk!(b),
+        "i" => mk!(i),
+        "em" => mk!(em),
+        "u" => mk!(u),
+        "textarea" => mk!(textarea),
+        _ => mk!(section),
+    }
+}
+
+/// strings that need escaping where they are printed: text, `<textarea>` text (RCDATA: `</textarea>` would end it, a
+/// leading line feed is dropped by the parser), attribute values; stream syntax of the out-of-order protocol as text
+const HOSTILE: &[&str] = &[
+    "a<b", "x&y", "1>0", "&amp;", "</textarea><p>g</p>", "\nlf", "\n", "q\"u", "<!--s-1-o-->", "<template id=\"1-f\">",
+    "</script>", "</template>", "<!>", "if a<b && c>d {",
+];
+
+fn esc_text(s: &str) -> String {
+    s.replace('&', "&amp;").replace('<', "&lt;").replace('>', "&gt;")
 }
 
 fn tuple_of(mut vs: Vec<AnyView>) -> AnyView {
@@ -769,7 +796,8 @@ fn region_token(kids: &[V]) -> Option<String> {
 /// None = inside an asynchronous region without a token of its own (visibility unknown)
 fn facts(v: &V, need: &Vec<usize>, region: &Option<Option<String>>, f: &mut Facts) {
     match v {
-        V::Text(s) => f.content.push((s.clone(), need.clone())),
+        V::Text(s) if s.is_empty() => {}
+        V::Text(s) => f.content.push((esc_text(s), need.clone())),
         V::El(_, k) | V::Island(_, k) | V::Tup(k) | V::List(k) | V::Eb(k) => k.iter().for_each(|x| facts(x, need, region, f)),
         V::Suspend(k, kids) | V::Await(k, kids) | V::ResSuspend(k, kids) | V::ResRead(_, k, kids) => {
             let mut need2 = need.clone();
@@ -1408,7 +1436,16 @@ impl Gen {
     fn leaf(&mut self) -> V {
         let tag = *self.r.pick(&["b", "i", "em", "span", "p"]);
         let t = self.tok("x");
-        V::El(tag.into(), vec![V::Text(t)])
+        match self.r.below(12) {
+            // text that has to be escaped, in an ordinary element / in a <textarea> / as an attribute value
+            0 => V::El(tag.into(), vec![V::Text(format!("{}{t}", self.r.pick(HOSTILE)))]),
+            1 | 2 => V::El("textarea".into(), vec![V::Text(format!("{}{t}", self.r.pick(HOSTILE)))]),
+            3 => {
+                let v = format!("{}{t}", self.r.pick(HOSTILE));
+                V::El(format!("{tag}@{}", hex(v.as_bytes())), vec![V::Text(t)])
+            }
+            _ => V::El(tag.into(), vec![V::Text(t)]),
+        }
     }
     fn fut(&mut self) -> usize {
         self.futs += 1;
@@ -1779,6 +1816,9 @@ const SHAPES_B: &[&str] = &[
     "ediv[ Sfb1[ go1[ ei[ t7631 ] gr2[ eem[ t7632 ] ] ] ] eb[ t6131 ] ]",
     // … in the output of a Suspend, of an <Await>
     "ediv[ Tfb1[ s1[ ei[ t7631 ] gd2[ eem[ t7632 ] ] ] ] A3[ go2[ eb[ t7633 ] ] ] ]",
+    // text that needs escaping (a <textarea> with `<`, `&`, `</textarea>`, a leading line feed; ordinary text; an attribute
+    // value) AFTER a sibling that is still pending and INSIDE content that resolves later (round-4 seed 3)
+    "ediv[ s1[ ei[ t7631 ] ] etextarea[ t0a6966203c6220262620633e64207b203c2f74657874617265613e ] Sfb1[ s2[ etextarea[ t3c2f74657874617265613e78 ] ep@223e3c78[ t613c62 ] ] ] ]",
     // … under an inner boundary that is rendered later: what it waits for depends on what had loaded by then
     "ediv[ Sfb1[ s3[ ep[ t7633 ] Sfb2[ gd1[ ei[ t7631 ] go2[ eem[ t7632 ] ] ] ] ] ] ]",
 ];
@@ -1916,14 +1956,16 @@ fn gen(seed: u64, n: usize, path: &str, tier: &str) -> std::io::Result<()> {
             let late = has_late_read(Ctx::Top, &V::Tup(vs.clone()));
             late_reads(Ctx::Top, &V::Tup(vs.clone()), &mut late_futs);
             let top_suspend = vs.iter().any(has_top_suspend);
+            // inside a <textarea> the branch markers of its text child would be escaped as text: not with `b`
+            let no_b = late || { let mut t = vec![]; ser_views(&vs, &mut t); t.iter().any(|x| x.starts_with("etextarea")) };
             let tag = if futs.is_empty() { "view~plain" } else if late { "view~sync-read-late" } else if known { "view~repaired-class" } else { "view" };
             let mut toks = vec![];
             ser_views(&[V::El("div".into(), vs)], &mut toks);
             // branch markers / a nonce; not with a late read (its `None` renders as an `Either` branch of its own)
             let flags = match g.r.below(8) {
-                0 | 1 if !late => "b",
+                0 | 1 if !no_b => "b",
                 2 => "n",
-                3 if !late => "bn",
+                3 if !no_b => "bn",
                 _ => "",
             };
             let tag = if ooo && flags.contains('n') && top_suspend && !late { "view~suspend-no-nonce" } else { tag };
